@@ -47,8 +47,12 @@ structure PeriodicCfg where
   frequency : Int
   variance : Int
   maxExecutions : Int
-  nStartNodes : Nat        -- len(possible_start_nodes)
+  nodes : List Val         -- possible_start_nodes
+  app : Val := ""          -- target_application
 deriving Repr
+
+/-- `len(possible_start_nodes)` -/
+def PeriodicCfg.nStartNodes (c : PeriodicCfg) : Nat := c.nodes.length
 
 /-- `check_variance_lt_frequency`: the settings are rejected when `variance >= frequency`. -/
 def PeriodicCfg.valid (c : PeriodicCfg) : Bool := decide (c.variance < c.frequency)
@@ -106,6 +110,21 @@ def dmStep (c : PeriodicCfg) (s : PeriodicState) (t : Int) (d : Int) (k : Nat) :
   | none =>
     if k < c.nStartNodes then ({ s1 with startNode := some k }, .execute k)
     else ({ s1 with dead := true }, .raised)
+
+/-- The CAOS action a periodic / data-manipulation agent returns for an output of the model: `execute k` is
+`("node-application-execute", {node_name: possible_start_nodes[k], application_name: target_application})`;
+`none` = raised (or an index outside the list, which `periodicStep` / `dmStep` never produce: `C19_periodic_params_from_config`). -/
+def PeriodicOut.render (c : PeriodicCfg) : PeriodicOut → Option (String × List (String × Val))
+  | .doNothing => some ("do-nothing", [])
+  | .execute k => (c.nodes[k]?).map fun v => ("node-application-execute", [("node_name", v), ("application_name", c.app)])
+  | .raised => none
+
+/-- key ↦ source expression of the returned dictionary (both `get_action`s), the body of the cached `start_node`
+property, and the default `target_application` of the data-manipulation agent — pinned by `C19_gen_periodic_params`. -/
+def periodicActionParams : List (String × String) :=
+  [("node_name", "self.start_node"), ("application_name", "self.config.agent_settings.target_application")]
+def periodicStartNode : String := "random.choice(self.config.agent_settings.possible_start_nodes)"
+def dmDefaultApplication : String := "data-manipulation-bot"
 
 /-- One input of a run: the draws available to the step. -/
 structure PIn where
